@@ -32,35 +32,38 @@ theorem setStateClosed_eq {s s' : Sock} {e : Err} (h : setStateClosed s e = .ok 
     rw [setState_eq h1]
     exact ⟨_, rfl⟩
 
+theorem bind_ok {α β : Type} {x : R α} {f : α → R β} {b : β} (h : (x >>= f) = .ok b) :
+    ∃ a, x = .ok a ∧ f a = .ok b := by
+  cases x with
+  | error e => cases h
+  | ok a => exact ⟨a, rfl, h⟩
+
+/-- `s1` differs from `s` in the state only -/
+def SBS (s s1 : Sock) : Prop := ∃ st, s1 = { s with state := st }
+
+theorem SBS.refl (s : Sock) : SBS s s := ⟨s.state, rfl⟩
+theorem SBS.trans {a b c : Sock} (h1 : SBS a b) (h2 : SBS b c) : SBS a c := by
+  obtain ⟨x, rfl⟩ := h1; obtain ⟨y, rfl⟩ := h2; exact ⟨y, rfl⟩
+theorem setState_sbs {s s' : Sock} {n : TcpState} (h : setState s n = .ok s') : SBS s s' := ⟨n, setState_eq h⟩
+
 theorem closedownNav_eq {s s' : Sock} {e : Err} (h : closedownNav s e = .ok s') :
     ∃ o, s' = { s with state := .closed, out := o } := by
   unfold closedownNav at h
-  simp only [bind, Except.bind] at h
-  split at h
-  · cases h
-  · rename_i s1 h1
-    obtain ⟨o, ho⟩ := setStateClosed_eq h
-    have : ∃ st, s1 = { s with state := st } := by
-      split at h1
-      · cases h1; exact ⟨s.state, rfl⟩
-      · simp only [bind, Except.bind] at h1
-        split at h1
-        · cases h1
-        · rename_i a ha; split at h1
-          · cases h1
-          · rename_i b hb
-            rw [setState_eq h1, setState_eq hb, setState_eq ha]; exact ⟨_, rfl⟩
-      · simp only [bind, Except.bind] at h1
-        split at h1
-        · cases h1
-        · rename_i a ha
-          rw [setState_eq h1, setState_eq ha]; exact ⟨_, rfl⟩
-      · rw [setState_eq h1]; exact ⟨_, rfl⟩
-      · rw [setState_eq h1]; exact ⟨_, rfl⟩
-      · cases h1; exact ⟨s.state, rfl⟩
-    obtain ⟨st, hst⟩ := this
-    subst hst
-    exact ⟨o, ho⟩
+  obtain ⟨s1, h1, h2⟩ := bind_ok h
+  obtain ⟨o, ho⟩ := setStateClosed_eq h2
+  have : SBS s s1 := by
+    cases hs : s.state <;> simp only [hs] at h1
+    all_goals first
+      | (cases h1; exact SBS.refl _)
+      | exact setState_sbs h1
+      | (obtain ⟨a, ha, h1⟩ := bind_ok h1
+         first
+           | exact (setState_sbs ha).trans (setState_sbs h1)
+           | (obtain ⟨b, hb, h1⟩ := bind_ok h1
+              exact ((setState_sbs ha).trans (setState_sbs hb)).trans (setState_sbs h1)))
+  obtain ⟨st, hst⟩ := this
+  subst hst
+  exact ⟨o, ho⟩
 
 section
 variable (W : List UInt8) (D n : Nat) (st0 : TcpState)
@@ -82,15 +85,15 @@ theorem queue_rspec (s : Sock) (d : Array UInt8) (len : UInt32) (fl : UInt8) :
 
 theorem queueConnectMessage_rspec (s : Sock) :
     ⦃⌜RInvS W D n st0 s⌝⦄ queueConnectMessage s ⦃⇓? s' => ⌜RInvS W D n st0 s'⌝⦄ := by
-  mvcgen [queueConnectMessage, queue_rspec] <;> rinv
+  (have h_queue := queue_rspec W D n st0; mvcgen [queueConnectMessage, h_queue] <;> rinv)
 
 theorem queueFinMessage_rspec (s : Sock) :
     ⦃⌜RInvS W D n st0 s⌝⦄ queueFinMessage s ⦃⇓? s' => ⌜RInvS W D n st0 s'⌝⦄ := by
-  mvcgen [queueFinMessage, queue_rspec] <;> rinv
+  (have h_queue := queue_rspec W D n st0; mvcgen [queueFinMessage, h_queue] <;> rinv)
 
 theorem queueRstMessage_rspec (s : Sock) :
     ⦃⌜RInvS W D n st0 s⌝⦄ queueRstMessage s ⦃⇓? s' => ⌜RInvS W D n st0 s'⌝⦄ := by
-  mvcgen [queueRstMessage, queue_rspec] <;> rinv
+  (have h_queue := queue_rspec W D n st0; mvcgen [queueRstMessage, h_queue] <;> rinv)
 
 theorem packet_rspec (s : Sock) (seq : UInt32) (fl : UInt8) (off len now : UInt32) :
     ⦃⌜RInvS W D n st0 s⌝⦄ packet s seq fl off len now ⦃⇓? r => ⌜RInvS W D n st0 r.2⌝⦄ := by
@@ -106,25 +109,25 @@ theorem transmitLoop_rspec (idx : Nat) (now : UInt32) (fuel : Nat) (s : Sock) (k
     ⦃⌜RInvS W D n st0 s⌝⦄ transmitLoop idx now fuel s k ⦃⇓? r => ⌜RInvS W D n st0 r.2.1⌝⦄ := by
   induction fuel generalizing s k with
   | zero => mvcgen [transmitLoop]
-  | succ f ih => mvcgen [transmitLoop, packet_rspec, mssDownLoop_rspec, ih] <;> rinv
+  | succ f ih => (have h_packet := packet_rspec W D n st0; have h_mssDownLoop := mssDownLoop_rspec W D n st0; mvcgen [transmitLoop, h_packet, h_mssDownLoop, ih] <;> rinv)
 
 theorem transmit_rspec (s : Sock) (idx : Nat) (now : UInt32) :
     ⦃⌜RInvS W D n st0 s⌝⦄ transmit s idx now ⦃⇓? r => ⌜RInvS W D n st0 r.2⌝⦄ := by
-  mvcgen [transmit, transmitLoop_rspec] <;> rinv
+  (have h_transmitLoop := transmitLoop_rspec W D n st0; mvcgen [transmit, h_transmitLoop] <;> rinv)
 
 theorem attemptSendLoop_rspec (now : UInt32) (fuel : Nat) (s : Sock) (sf : SendFlags) :
     ⦃⌜RInvS W D n st0 s⌝⦄ attemptSendLoop now fuel s sf ⦃⇓? s' => ⌜RInvS W D n st0 s'⌝⦄ := by
   induction fuel generalizing s sf with
   | zero => mvcgen [attemptSendLoop]
-  | succ f ih => mvcgen [attemptSendLoop, packet_rspec, transmit_rspec, closedownNav_rspec, ih] <;> rinv
+  | succ f ih => (have h_packet := packet_rspec W D n st0; have h_transmit := transmit_rspec W D n st0; have h_closedownNav := closedownNav_rspec W D n st0; mvcgen [attemptSendLoop, h_packet, h_transmit, h_closedownNav, ih] <;> rinv)
 
 theorem attemptSend_rspec (s : Sock) (sf : SendFlags) (clk : UInt32) :
     ⦃⌜RInvS W D n st0 s⌝⦄ attemptSend s sf clk ⦃⇓? s' => ⌜RInvS W D n st0 s'⌝⦄ := by
-  mvcgen [attemptSend, attemptSendLoop_rspec] <;> rinv
+  (have h_attemptSendLoop := attemptSendLoop_rspec W D n st0; mvcgen [attemptSend, h_attemptSendLoop] <;> rinv)
 
 theorem closedown_rspec (s : Sock) (e : Err) (src : ClosedownSource) (clk : UInt32) :
     ⦃⌜RInvS W D n st0 s⌝⦄ closedown s e src clk ⦃⇓? s' => ⌜RInvS W D n st0 s'⌝⦄ := by
-  mvcgen [closedown, queueRstMessage_rspec, attemptSend_rspec, closedownNav_rspec] <;> rinv
+  (have h_queueRstMessage := queueRstMessage_rspec W D n st0; have h_attemptSend := attemptSend_rspec W D n st0; have h_closedownNav := closedownNav_rspec W D n st0; mvcgen [closedown, h_queueRstMessage, h_attemptSend, h_closedownNav] <;> rinv)
 
 end
 
